@@ -416,7 +416,7 @@ func Run(r *vh.Run) {
 
 	// --- read
 	type rd struct{ off, n uint64 }
-	reads := []rd{{0, 64}, {64, 128}, {4096, 4096}, {proto4.SectorSize - 64, 64}, {32, 32}, {32, 96}, {100, 28}, {0, 0}, {64, 100}, {proto4.SectorSize, 64}}
+	reads := []rd{{0, 64}, {64, 128}, {4096, 4096}, {0, 4160}, {8192, 8320}, {128, 1024}, {proto4.SectorSize - 64, 64}, {32, 32}, {32, 96}, {100, 28}, {0, 0}, {64, 100}, {proto4.SectorSize, 64}}
 	for i := 0; i < r.Pick(5, 250); i++ {
 		leaf := uint64(e.rng.Intn(proto4.LeavesPerSector - 70))
 		nl := uint64(1 + e.rng.Intn(66))
